@@ -2,6 +2,7 @@ package props
 
 import (
 	"fmt"
+	"os"
 	"path/filepath"
 	"sort"
 	"strings"
@@ -28,6 +29,12 @@ func runC01(r *core.Run) (bool, string) {
 	}
 	if !calibrate(r, goose) {
 		return false, "interpreter calibration on the semantics suite failed (model or reader defect): no verdicts issued"
+	}
+	if os.Getenv("VERIF_DEV_ONLY") == "families" {
+		// development aid: the statement matrix with every family atom (never set by a registered command)
+		r.Tier = "thorough"
+		c01Statements(r, goose)
+		return true, ""
 	}
 	// directed layer (seed-independent)
 	var dpk []*gen.Package
